@@ -23,6 +23,12 @@ CLAIMED["C10"] = ("other", "Completeness of all per-node Span() unions against t
          "exhaustiveness check over go/types struct fields + syntactic provenance classes of span values")
 CLAIMED["C07"] = ("other", "Precedence table order, precedence-climbing guards as path facts at the BinaryExpr construction and the recursive call, sign operand production, keyword/synonym table of the tabular operators, sort-term defaults and their rendering. The tree for every derivation and layout independence quantify over inputs and are not decided.", "DESIGN.md §3 C07",
          "table extraction from switches + path facts (AST abstract interpreter) at construction sites")
+CLAIMED["C01"] = ("other", "Output-grammar derivation of the expression writer with closedness classes at every operand hole, needsParens agreement, descending unwrap loops, reader/writer operator table agreement and built-in rewrite skeletons. Value equality over rows needs the semantics of both languages and is not decided.", "DESIGN.md §3 C01",
+         "grammar extraction by abstract interpretation + FIRST/LAST-style class analysis + table agreement")
+CLAIMED["C04"] = ("other", "Taint analysis of every raw write into the SQL text with path facts, no hand-made quotes, escape sets of the two sanitizers recovered from their per-byte branches and compared with the dialect's metacharacters. Decoding by a real SQL lexer and numeric value preservation are not decided.", "DESIGN.md §3 C04",
+         "taint analysis over the derived output grammar + sanitizer escape-set recovery")
+CLAIMED["C05"] = ("other", "Bracket-depth abstract interpretation over every emitting function (path-sensitive), single terminator, and deadness of all placeholder branches by constructed-vs-handled set inclusion. Whether arbitrary accepted programs parse under ClickHouse is not decided.", "DESIGN.md §3 C05",
+         "abstract interpretation of bracket depth over the derived grammar + exhaustiveness tables")
 NA = {}
 def main():
     props = [json.loads(l) for l in open('/verif/properties.jsonl')]
